@@ -9,6 +9,7 @@
   (`OrderIndependent`) is refuted for the model by a concrete witness (`not_orderIndependent`), a known finding.
 -/
 import Cellml.Analyser.Proofs
+import Cellml.Analyser.Deps
 namespace Cellml.Props.C05
 open Cellml.Analyser
 
@@ -95,6 +96,56 @@ theorem modelType_valid_iff (s : St) :
       obtain ⟨v, hv, h⟩ := hu; exact ⟨v, hv, Or.inl h⟩
     simp [hv]
 
+/-- **nothing an equation reads is forgotten**: once an equation is typed, every class it mentions outside `diff` is
+    either one of its recorded dependencies or one of the unknowns it computes -/
+theorem reads_recorded (s : St) (hp : ∀ e ∈ s.eqs, e.ty = .unknown) (i : Nat) (e0 e : E)
+    (h0 : s.eqs[i]? = some e0) (h : (analyse s).eqs[i]? = some e) (ht : e.ty ≠ .unknown) :
+    ∀ v ∈ e0.vars, v ∈ e.deps.map (·.1) ∨ v ∈ e.unknowns := by
+  intro v hv
+  have hc := analyse_cov s hp i e0 e h0 h
+  rcases hc.1 v hv with h1 | h1 | h1
+  · exact Or.inr (hc.2 ht v h1)
+  · exact Or.inl h1
+  · exact Or.inr h1
+
+/-- **each equation depends on the equations computing what it reads**: if typed equation `i` reads class `v`, does not
+    compute `v` itself, and equation `j` computes `v`, then `j` is among the dependencies wired for `i` (the lookup goes
+    through the class, so it does not matter which member of the class was its representative when the dependency
+    was recorded) -/
+theorem reads_imply_depends (s : St) (hp : ∀ e ∈ s.eqs, e.ty = .unknown) (i j v : Nat) (e0 e : E)
+    (h0 : s.eqs[i]? = some e0) (h : (analyse s).eqs[i]? = some e) (ht : e.ty ≠ .unknown)
+    (hv : v ∈ e0.vars) (hown : v ∉ e.unknowns) (hj : computes (analyse s) j v = true) :
+    j ∈ eqDeps (analyse s) i := by
+  have hd : v ∈ e.deps.map (·.1) := by
+    rcases reads_recorded s hp i e0 e h0 h ht v hv with h1 | h1
+    · exact h1
+    · exact absurd h1 hown
+  obtain ⟨d, hd1, hd2⟩ := List.mem_map.mp hd
+  have hlt : j < (analyse s).eqs.length := by
+    unfold computes at hj
+    split at hj
+    · rename_i x hx; exact (List.getElem?_eq_some_iff.mp hx).1
+    · cases hj
+  unfold eqDeps
+  rw [h]
+  simp only [List.mem_filter, List.mem_range, List.any_eq_true]
+  exact ⟨hlt, d, hd1, by rw [hd2]; exact hj⟩
+
+/-! The removal of an equation's own unknowns from its record compares *variables*, not classes: a dependency recorded
+    while another member of the class was its representative survives, and the equation then depends on itself.  This
+    is what the implementation does (the correspondence compares the dependency sets); it only happens to ODEs and NLA
+    equations (an unknown must be known before its equation is typed), whose dependencies the generator does not follow.
+    Witness: `x` initialised in component 0, `dx/dt = x` in component 1. -/
+def selfDep : St :=
+  { vars := [⟨.voi, none, false, 0⟩, ⟨.state, none, false, 0⟩],
+    eqs := [{ comp := 1, vars := [1], odes := [1], all := [1, 1], lhs := some (1, true), rhs := none }] }
+
+theorem ode_self_dependency_witness : eqDeps (analyse selfDep) 0 = [0] := by decide
+
+/-- … and with the initial value in the component of the ODE the self-dependency is removed -/
+theorem ode_self_dependency_removed :
+    eqDeps (analyse { selfDep with eqs := selfDep.eqs.map fun e => { e with comp := 0 } }) 0 = [] := by decide
+
 /-- full statement of order independence (not proved for the model; checked on the implementation): permuting the
     equations of a system does not change the type of any class nor the model type -/
 def OrderIndependent : Prop :=
@@ -129,5 +180,7 @@ example : modelType (analyse sample) = .ode := by decide
 example : (analyse sample).vars.map (·.ty) = [.voi, .state, .algebraic] := by decide
 example : finalIndices (analyse sample).vars = [none, some 0, some 0] := by decide
 example : (analyse sample).eqs.map (·.ty) = [.ode, .algebraic] := by decide
+example : eqDeps (analyse sample) 1 = [0] ∧ eqDeps (analyse sample) 0 = [] := by decide
+example : ∀ e ∈ sample.eqs, e.ty = .unknown := by decide
 
 end Cellml.Props.C05
